@@ -183,3 +183,53 @@ extern "C" void c10_empty_and_single() {
   vp_assert(o.Valid() && o.Ready() && std::as_const(o).Touch().Value() == v, "C10 WhenAny of one future is that future");
   vp_reach("c10 empty/single");
 }
+
+// ---- AllTuple (heterogeneous inputs -> std::tuple): sequential completion orders, both policies
+static unsigned g_t_n, g_t_state; static int g_t_exc = -1; static int g_t0; static unsigned g_t1; static unsigned g_ts0, g_ts1;
+template <FailPolicy Pol>
+static void Tuple(unsigned k0, unsigned k1, unsigned order) {
+  auto [f0, p0] = MakeContract<int>();
+  auto [f1, p1] = MakeContract<unsigned>();
+  int v0 = (int)vp_nondet_u32(); unsigned v1 = vp_nondet_u32();
+  auto set0 = [&, p = &p0] { if (k0 == 0) std::move(*p).Set(v0); else if (k0 == 1) std::move(*p).Set(StopTag{}); else { std::exception_ptr e; try { throw v0; } catch (...) { e = std::current_exception(); } std::move(*p).Set(std::move(e)); } };
+  auto set1 = [&, p = &p1] { if (k1 == 0) std::move(*p).Set(v1); else if (k1 == 1) std::move(*p).Set(StopTag{}); else { std::exception_ptr e; try { throw (int)v1; } catch (...) { e = std::current_exception(); } std::move(*p).Set(std::move(e)); } };
+  if (order == 2) { set0(); }            // input 0 completes before the combinator is built
+  auto out = WhenAll<Pol>(std::move(f0), std::move(f1));
+  if constexpr (Pol == FailPolicy::FirstFail) {
+    std::move(out).DetachInline([](Result<std::tuple<int, unsigned>>&& r) noexcept {
+      ++g_t_n; g_t_state = (unsigned)r.State();
+      if (r.State() == ResultState::Value) { g_t0 = std::get<0>(std::as_const(r).Value()); g_t1 = std::get<1>(std::as_const(r).Value()); }
+      if (r.State() == ResultState::Exception) g_t_exc = ExcPayload(std::as_const(r).Exception());
+    });
+  } else {
+    std::move(out).DetachInline([](Result<std::tuple<Result<int>, Result<unsigned>>>&& r) noexcept {
+      ++g_t_n; g_t_state = (unsigned)r.State();
+      if (r.State() == ResultState::Value) {
+        auto& t = std::as_const(r).Value();
+        g_ts0 = (unsigned)std::get<0>(t).State(); g_ts1 = (unsigned)std::get<1>(t).State();
+        if (std::get<0>(t).State() == ResultState::Value) g_t0 = std::get<0>(t).Value();
+        if (std::get<1>(t).State() == ResultState::Value) g_t1 = std::get<1>(t).Value();
+      }
+    });
+  }
+  if (order == 0) { set0(); set1(); } else if (order == 1) { set1(); set0(); } else { set1(); }
+  vp_assert(g_t_n == 1, "C09 WhenAll (tuple form) output delivered exactly once");
+  bool any_fail = k0 != 0 || k1 != 0;
+  auto st = [](unsigned k) { return (unsigned)(k == 0 ? ResultState::Value : k == 1 ? ResultState::Error : ResultState::Exception); };
+  if (Pol == FailPolicy::None) {
+    vp_assert(g_t_state == (unsigned)ResultState::Value && g_ts0 == st(k0) && g_ts1 == st(k1), "C09 WhenAll<None> (tuple form) must carry every input's Result at its index");
+    if (k0 == 0) vp_assert(g_t0 == v0, "C09 tuple entry 0 is not input 0's value");
+    if (k1 == 0) vp_assert(g_t1 == v1, "C09 tuple entry 1 is not input 1's value");
+  } else if (!any_fail) {
+    vp_assert(g_t_state == (unsigned)ResultState::Value && g_t0 == v0 && g_t1 == v1, "C09 WhenAll (tuple form) must carry input i's value at index i");
+  } else {
+    unsigned first_failed = (order == 1) ? (k1 != 0 ? 1 : 0) : (k0 != 0 ? 0 : 1);
+    unsigned kf = first_failed == 0 ? k0 : k1; int vf = first_failed == 0 ? v0 : (int)v1;
+    vp_assert(g_t_state == st(kf), "C09 WhenAll<FirstFail> (tuple form) must carry the first failure");
+    if (kf == 2) vp_assert(g_t_exc == vf, "C09 WhenAll<FirstFail> (tuple form) carries a different exception than the first failed input's");
+  }
+  vp_assert(vp_live_count() == 0, "C03 an input core, the combinator or the output is still alive at quiescence (tuple form)");
+  vp_reach("c09 tuple");
+}
+extern "C" void c09_tuple_first(unsigned k0, unsigned k1, unsigned order) { Tuple<FailPolicy::FirstFail>(k0, k1, order); }
+extern "C" void c09_tuple_none(unsigned k0, unsigned k1, unsigned order) { Tuple<FailPolicy::None>(k0, k1, order); }
